@@ -26,8 +26,13 @@ SRC = {
     "part.c": "int part;\n#ifdef FEATURE\nint pf;\n#endif\n",
     "sub/x.cpp": '#include "cfg.h"\n#ifdef FEATURE\nint xf;\n#endif\nint x;\n',
     "sub/y.h": "int y;\n",
+    # two directories of the same name at different depths: `/gen/` names the first one only, `gen/` both
+    "gen/g.c": "int g;\n", "sub/gen/h.c": "int h;\n",
+    # gets the macro header through -include only (no #include line)
+    "fi.c": "#ifdef FEATURE2\nint fif;\n#else\nint nofif;\n#endif\nint fi;\n",
 }
 CFG = "#define FEATURE\n#define LEVEL 2\nint cfgline;\n"
+CFG2 = "#define FEATURE2\nint cfg2line;\n"       # reached through -include only, by one command only
 VARIANTS = ["cfg-inside", "cfg-outside", "cfg-inside-angle", "cfg-outside-angle"]   # -angle: the header is included as <cfg.h>
 
 
@@ -39,15 +44,19 @@ def build(base, variant):
         files = {k: v.replace('"cfg.h"', "<cfg.h>") for k, v in files.items()}
     if variant.startswith("cfg-inside"):
         files["cfg.h"] = CFG
+        files["cfg2.h"] = CFG2
         inc = ["-I", root]
     else:
         os.makedirs(os.path.join(base, "ext"))
         with open(os.path.join(base, "ext", "cfg.h"), "w") as f:
             f.write(CFG)
+        with open(os.path.join(base, "ext", "cfg2.h"), "w") as f:
+            f.write(CFG2)
         inc = ["-I", os.path.join(base, "ext")]
     codebase.write_tree(root, files)
+    cfgpath = os.path.join(inc[1], "cfg2.h")
     plats = {
-        "p1": [{"file": "main.c", "args": inc}, {"file": "util.c", "args": inc}, {"file": "sub/x.cpp", "args": inc}],
+        "p1": [{"file": "main.c", "args": inc}, {"file": "util.c", "args": inc}, {"file": "sub/x.cpp", "args": inc}, {"file": "fi.c", "args": ["-include", cfgpath]}],
         "p2": [{"file": "util.c", "args": inc + ["-DEXTRA"]}],
     }
     return root, sorted(files), plats
@@ -66,6 +75,10 @@ def renderings(files, subset):
         out.append(("ext+negation", pats))
     if set(S) == {f for f in files if f.startswith("sub/")} and S:
         out.append(("directory", ["sub/"]))
+    if S == ["gen/g.c"]:
+        out += [("anchored-directory", ["/gen/"]), ("anchored-directory-name", ["/gen"])]
+    if S == ["gen/g.c", "sub/gen/h.c"]:
+        out += [("directory-at-any-depth", ["gen/"])]
     return out
 
 
@@ -118,6 +131,8 @@ def _work(arg):
     if variant.startswith("cfg-outside"):
         if any("cfg.h" in rel for rel in att0):
             out.append(Failure("outside-file-counted", {"variant": variant}, expected="cfg.h outside the root contributes no lines", observed=sorted(att0)))
+        if att0.get("fi.c", {}).get(2) != frozenset({"p1"}):
+            out.append(Failure("outside-macros-lost", {"variant": variant}, expected="line 2 of fi.c (guarded by FEATURE2 from the outside header named by -include) used by p1", observed=str(att0.get("fi.c"))))
         if att0.get("main.c", {}).get(4) != frozenset({"p1"}):
             out.append(Failure("outside-macros-lost", {"variant": variant}, expected="line 4 of main.c (guarded by FEATURE from the outside header) used by p1", observed=str(att0.get("main.c"))))
     skipped = 0
@@ -172,7 +187,7 @@ def _cross(suffix):
         root, files, plats = build(base, v)
         codebase.write_analysis(root, plats)
         try:
-            atts[v], _ = analyse(root, plats, ["/cfg.h"] if v.startswith("cfg-inside") else [])
+            atts[v], _ = analyse(root, plats, ["/cfg.h", "/cfg2.h"] if v.startswith("cfg-inside") else [])
         except Exception as e:  # noqa
             out.append(Failure("exception", {"variant": v, "exclude": ["/cfg.h"]}, observed=f"{type(e).__name__}: {e}"))
         shutil.rmtree(base, ignore_errors=True)
@@ -234,8 +249,9 @@ def run(tier):
         raise SystemExit("git is required to confirm the pattern renderings")
     jobs = []
     for v in VARIANTS:
-        files = sorted(list(SRC) + (["cfg.h"] if v.startswith("cfg-inside") else []))
+        files = sorted([f for f in SRC if "gen/" not in f] + (["cfg.h", "cfg2.h"] if v.startswith("cfg-inside") else []))
         subs = [list(c) for r in range(0, len(files) + 1) for c in itertools.combinations(files, r)]
+        subs += [["gen/g.c"], ["gen/g.c", "sub/gen/h.c"], ["gen/g.c", "main.c"]]      # the two same-named directories are not part of the subset product
         for i in range(0, len(subs), 4):
             chunk = subs[i:i + 4]
             with_cli = tier == "thorough" or ((i // 4 + env.SEED) % 3 == 0)
